@@ -75,6 +75,28 @@ fn main() {
             }
             0
         }
+        Some("ovf") => {
+            // does the msi crate run with overflow checks? (i32::MAX + 1 inside Expr)
+            let r = exec::guarded(|| {
+                let e = msi::Expr::integer(i32::MAX) + msi::Expr::integer(std::env::args().count() as i32 - 1);
+                format!("{}", e)
+            });
+            if let Ok(bytes) = std::fs::read("/tmp/msisim_debug_image.msi") {
+                let r2 = exec::guarded(|| {
+                    let mut p = msi::Package::open(std::io::Cursor::new(bytes)).unwrap();
+                    format!("{:?}", p.insert_rows(msi::Insert::into("T1").row(vec![msi::Value::Int(1)])))
+                });
+                match r2 {
+                    exec::Caught::Val(v) => println!("insert into grown pool: {}", v),
+                    exec::Caught::Panic(loc, msg) => println!("insert into grown pool panicked at {}: {}", loc, msg),
+                }
+            }
+            match r {
+                exec::Caught::Val(v) => println!("no overflow check: {}", v),
+                exec::Caught::Panic(loc, msg) => println!("overflow checked at {}: {}", loc, msg),
+            }
+            0
+        }
         Some("digest") if args.len() >= 7 => {
             // prints one line per run: run index and its event-log digest
             let p = gen::Profile::parse(&args[3]).expect("profile");
